@@ -1,5 +1,7 @@
 package scanner
 
+import "sort"
+
 type NewLines struct {
 	data []int
 }
@@ -11,15 +13,13 @@ func (nl *NewLines) Append(p int) {
 }
 
 func (nl *NewLines) GetLine(p int) int {
-	line := len(nl.data) + 1
+	n := len(nl.data)
 
-	for i := len(nl.data) - 1; i >= 0; i-- {
-		if p < nl.data[i] {
-			line = i + 1
-		} else {
-			break
-		}
+	// most lookups are for the last known line
+	if n == 0 || p >= nl.data[n-1] {
+		return n + 1
 	}
 
-	return line
+	// the line starts are sorted: find the first one behind p
+	return sort.Search(n, func(i int) bool { return p < nl.data[i] }) + 1
 }
